@@ -43,6 +43,8 @@ import (
 	"google.golang.org/protobuf/proto"
 	"google.golang.org/protobuf/reflect/protoreflect"
 	"google.golang.org/protobuf/reflect/protoregistry"
+	"google.golang.org/protobuf/types/descriptorpb"
+	"google.golang.org/protobuf/types/dynamicpb"
 	"google.golang.org/protobuf/types/known/anypb"
 	"google.golang.org/protobuf/types/known/durationpb"
 	"google.golang.org/protobuf/types/known/emptypb"
@@ -322,6 +324,321 @@ func c18Guard(fn func()) (panicked string) {
 	return ""
 }
 
+// ---------------------------------------------------------------------------
+// grammar of valid but non-canonical encodings of a detail value
+// ---------------------------------------------------------------------------
+
+// c18EncVariant is one alternative encoding of the value of a detail: the bytes
+// are valid for the type (proto.Unmarshal accepts them) but differ from what
+// the Go marshaller emits for the decoded value. Another protobuf runtime may
+// legitimately put any of them on the wire; a conversion must carry them
+// verbatim.
+type c18EncVariant struct {
+	Name  string
+	Value []byte
+}
+
+type c18WireRec struct {
+	Num protowire.Number
+	Typ protowire.Type
+	Raw []byte // tag + value
+	Val []byte // value part only
+}
+
+func c18SplitRecords(b []byte) ([]c18WireRec, bool) {
+	var out []c18WireRec
+	for len(b) > 0 {
+		num, typ, n := protowire.ConsumeTag(b)
+		if n < 0 {
+			return nil, false
+		}
+		m := protowire.ConsumeFieldValue(num, typ, b[n:])
+		if m < 0 {
+			return nil, false
+		}
+		out = append(out, c18WireRec{num, typ, append([]byte(nil), b[:n+m]...), append([]byte(nil), b[n:n+m]...)})
+		b = b[n+m:]
+	}
+	return out, true
+}
+
+// c18LongVarint re-encodes a minimal varint with one redundant continuation
+// group (…|0x80, 0x00): same value, one byte more.
+func c18LongVarint(min []byte) []byte {
+	out := append([]byte(nil), min...)
+	out[len(out)-1] |= 0x80
+	return append(out, 0x00)
+}
+
+func c18Join(recs []c18WireRec) []byte {
+	var out []byte
+	for _, r := range recs {
+		out = append(out, r.Raw...)
+	}
+	return out
+}
+
+// c18EncodingVariants derives the alternative encodings from the canonical
+// bytes of a value of the given (registered) message type:
+//   - field records in reverse order / first record moved to the end,
+//   - an unknown varint field in front, between and behind the known ones,
+//   - every tag, the first length prefix, the first varint value written as a
+//     non-minimal varint,
+//   - a scalar field without presence that is absent, written explicitly with
+//     its default value (in front and at the end),
+//   - a singular scalar field given twice (earlier value is overridden),
+//   - a packed repeated numeric field written unpacked and vice versa.
+//
+// Only variants that the protobuf runtime accepts for the type and that differ
+// from the canonical bytes are returned.
+func c18EncodingVariants(md protoreflect.MessageDescriptor, canon []byte) []c18EncVariant {
+	recs, ok := c18SplitRecords(canon)
+	if !ok {
+		return nil
+	}
+	var cands []c18EncVariant
+	add := func(name string, b []byte) { cands = append(cands, c18EncVariant{name, b}) }
+	// an unknown field: number above every declared one
+	unkNum := protowire.Number(1)
+	for i := 0; i < md.Fields().Len(); i++ {
+		if n := md.Fields().Get(i).Number(); n >= unkNum {
+			unkNum = n + 1
+		}
+	}
+	unk := protowire.AppendVarint(protowire.AppendTag(nil, unkNum, protowire.VarintType), 1)
+
+	if len(recs) >= 2 {
+		rev := make([]c18WireRec, len(recs))
+		for i, r := range recs {
+			rev[len(recs)-1-i] = r
+		}
+		add("fields-reversed", c18Join(rev))
+	}
+	if len(recs) >= 3 {
+		add("first-field-last", c18Join(append(append([]c18WireRec{}, recs[1:]...), recs[0])))
+	}
+	add("unknown-field-first", append(append([]byte(nil), unk...), canon...))
+	if len(recs) >= 1 {
+		add("unknown-field-behind", append(append([]byte(nil), canon...), unk...))
+	}
+	if len(recs) >= 2 {
+		b := append([]byte(nil), recs[0].Raw...)
+		b = append(b, unk...)
+		add("unknown-field-between", append(b, c18Join(recs[1:])...))
+	}
+	if len(recs) >= 1 {
+		var b []byte
+		for _, r := range recs {
+			tag := r.Raw[:len(r.Raw)-len(r.Val)]
+			b = append(b, c18LongVarint(tag)...)
+			b = append(b, r.Val...)
+		}
+		add("non-minimal-tags", b)
+	}
+	for i, r := range recs {
+		if r.Typ == protowire.BytesType {
+			_, n := protowire.ConsumeVarint(r.Val)
+			var b []byte
+			b = append(b, c18Join(recs[:i])...)
+			b = append(b, r.Raw[:len(r.Raw)-len(r.Val)]...)
+			b = append(b, c18LongVarint(r.Val[:n])...)
+			b = append(b, r.Val[n:]...)
+			b = append(b, c18Join(recs[i+1:])...)
+			add("non-minimal-length", b)
+			break
+		}
+	}
+	for i, r := range recs {
+		if r.Typ == protowire.VarintType {
+			var b []byte
+			b = append(b, c18Join(recs[:i])...)
+			b = append(b, r.Raw[:len(r.Raw)-len(r.Val)]...)
+			b = append(b, c18LongVarint(r.Val)...)
+			b = append(b, c18Join(recs[i+1:])...)
+			add("non-minimal-varint", b)
+			break
+		}
+	}
+	present := map[protowire.Number]bool{}
+	for _, r := range recs {
+		present[r.Num] = true
+	}
+	zero := func(fd protoreflect.FieldDescriptor) []byte {
+		switch fd.Kind() {
+		case protoreflect.StringKind, protoreflect.BytesKind:
+			return protowire.AppendBytes(protowire.AppendTag(nil, fd.Number(), protowire.BytesType), nil)
+		case protoreflect.Fixed32Kind, protoreflect.Sfixed32Kind, protoreflect.FloatKind:
+			return protowire.AppendFixed32(protowire.AppendTag(nil, fd.Number(), protowire.Fixed32Type), 0)
+		case protoreflect.Fixed64Kind, protoreflect.Sfixed64Kind, protoreflect.DoubleKind:
+			return protowire.AppendFixed64(protowire.AppendTag(nil, fd.Number(), protowire.Fixed64Type), 0)
+		case protoreflect.MessageKind, protoreflect.GroupKind:
+			return nil
+		default:
+			return protowire.AppendVarint(protowire.AppendTag(nil, fd.Number(), protowire.VarintType), 0)
+		}
+	}
+	nDefault := 0
+	for i := 0; i < md.Fields().Len() && nDefault < 2; i++ {
+		fd := md.Fields().Get(i)
+		if fd.IsList() || fd.IsMap() || fd.HasPresence() || present[fd.Number()] {
+			continue
+		}
+		z := zero(fd)
+		if z == nil {
+			continue
+		}
+		nDefault++
+		add("explicit-default-first:"+string(fd.Name()), append(append([]byte(nil), z...), canon...))
+		if len(recs) >= 1 {
+			add("explicit-default-last:"+string(fd.Name()), append(append([]byte(nil), canon...), z...))
+		}
+	}
+	for i, r := range recs {
+		fd := md.Fields().ByNumber(r.Num)
+		if fd == nil || fd.IsList() || fd.IsMap() || fd.Kind() == protoreflect.MessageKind || fd.Kind() == protoreflect.GroupKind {
+			continue
+		}
+		// the same field once more in front, with another value (the default): the later one wins
+		z := zero(fd)
+		if z == nil || bytes.Equal(z, r.Raw) {
+			continue
+		}
+		var b []byte
+		b = append(b, c18Join(recs[:i])...)
+		b = append(b, z...)
+		b = append(b, c18Join(recs[i:])...)
+		add("singular-field-twice:"+string(fd.Name()), b)
+		break
+	}
+	for i, r := range recs {
+		fd := md.Fields().ByNumber(r.Num)
+		if fd == nil || !fd.IsList() {
+			continue
+		}
+		switch fd.Kind() {
+		case protoreflect.StringKind, protoreflect.BytesKind, protoreflect.MessageKind, protoreflect.GroupKind:
+			continue
+		}
+		if r.Typ == protowire.BytesType { // packed: write the elements unpacked
+			payload, n := protowire.ConsumeBytes(r.Val)
+			if n < 0 {
+				continue
+			}
+			var elemType protowire.Type
+			switch fd.Kind() {
+			case protoreflect.Fixed32Kind, protoreflect.Sfixed32Kind, protoreflect.FloatKind:
+				elemType = protowire.Fixed32Type
+			case protoreflect.Fixed64Kind, protoreflect.Sfixed64Kind, protoreflect.DoubleKind:
+				elemType = protowire.Fixed64Type
+			default:
+				elemType = protowire.VarintType
+			}
+			var b []byte
+			b = append(b, c18Join(recs[:i])...)
+			for len(payload) > 0 {
+				m := protowire.ConsumeFieldValue(r.Num, elemType, payload)
+				if m < 0 {
+					break
+				}
+				b = protowire.AppendTag(b, r.Num, elemType)
+				b = append(b, payload[:m]...)
+				payload = payload[m:]
+			}
+			b = append(b, c18Join(recs[i+1:])...)
+			add("packed-written-unpacked:"+string(fd.Name()), b)
+		} else { // unpacked element: write it as a packed run of one
+			var b []byte
+			b = append(b, c18Join(recs[:i])...)
+			b = protowire.AppendTag(b, r.Num, protowire.BytesType)
+			b = protowire.AppendBytes(b, r.Val)
+			b = append(b, c18Join(recs[i+1:])...)
+			add("unpacked-written-packed:"+string(fd.Name()), b)
+		}
+		break
+	}
+	var out []c18EncVariant
+	seen := map[string]bool{string(canon): true}
+	for _, cand := range cands {
+		if seen[string(cand.Value)] {
+			continue
+		}
+		if err := proto.Unmarshal(cand.Value, dynamicpb.NewMessage(md)); err != nil {
+			continue // not valid for the type: outside this grammar
+		}
+		seen[string(cand.Value)] = true
+		out = append(out, cand)
+	}
+	return out
+}
+
+// c18EncTypes: canonical values of registered message types the grammar of
+// alternative encodings is applied to (the registered types of the detail pool
+// plus types with fixed-width, bool, bytes and packed repeated fields).
+func c18EncTypes() []c18Detail {
+	hdr := &conformancev1.Header{Name: "x-detail", Value: []string{"a", "b%"}}
+	inner := &conformancev1.Error{Code: conformancev1.Code_CODE_ABORTED, Message: proto.String("inner é")}
+	if a, err := anypb.New(hdr); err == nil {
+		inner.Details = append(inner.Details, a)
+	}
+	mk := func(name string, m proto.Message) c18Detail {
+		return c18Detail{name, c18Prefix + string(m.ProtoReflect().Descriptor().FullName()), c18MustMarshal(m)}
+	}
+	return []c18Detail{
+		mk("header", hdr),
+		mk("empty", &emptypb.Empty{}),
+		mk("string", wrapperspb.String("100% é\x00")),
+		mk("error", inner),
+		mk("duration", &durationpb.Duration{Seconds: 1, Nanos: 5}),
+		mk("duration-seconds-only", &durationpb.Duration{Seconds: 7}),
+		mk("header-without-name", &conformancev1.Header{Value: []string{"v"}}),
+		mk("reqinfo", &conformancev1.ConformancePayload_RequestInfo{RequestHeaders: []*conformancev1.Header{hdr}, TimeoutMs: proto.Int64(300)}),
+		mk("payload", &conformancev1.ConformancePayload{Data: []byte{0, 1, 0xff}}),
+		mk("double", wrapperspb.Double(1.5)),
+		mk("int32", wrapperspb.Int32(-1)),
+		mk("bool", wrapperspb.Bool(true)),
+		mk("location", &descriptorpb.SourceCodeInfo_Location{Path: []int32{4, 0, 300}, Span: []int32{1, 2, 3}, LeadingComments: proto.String("c")}),
+	}
+}
+
+// encodingSection: every alternative encoding of every type of c18EncTypes
+// as the only detail, behind and in front of a canonically encoded detail and
+// twice, x 3 codes x {no message, a message}, on every conversion path. The
+// demanded result is the specification: same type URL, same BYTES.
+func (c *c18Run) encodingSection() {
+	types := c18EncTypes()
+	canon := types[0]
+	total := 0
+	for _, d := range types {
+		mt, err := protoregistry.GlobalTypes.FindMessageByURL(d.URL)
+		if err != nil {
+			panic(fmt.Sprintf("C18: %s is not a registered type: %v", d.URL, err))
+		}
+		variants := c18EncodingVariants(mt.Descriptor(), d.Value)
+		total += len(variants)
+		for _, v := range variants {
+			vd := c18Detail{Name: d.Name + "~" + v.Name, URL: d.URL, Value: v.Value}
+			layouts := [][]c18Detail{{vd}, {canon, vd}, {vd, canon}, {vd, vd}}
+			for li, layout := range layouts {
+				for _, code := range []int32{1, 8, 16} {
+					for mi, m := range []c18Msg{{false, ""}, {true, "an ascii message"}} {
+						id := fmt.Sprintf("err/enc/t=%s/v=%s/l=%d/c=%d/m=%d", d.Name, v.Name, li, code, mi)
+						if !c.take(id) {
+							continue
+						}
+						c.say("detail %s: canonical bytes %x, alternative encoding %x", vd.Name, d.Value, v.Value)
+						c.r.Outcome("enc:" + strings.SplitN(v.Name, ":", 2)[0])
+						c.errorCase(id, c18ErrSpec{Code: code, Msg: m, Details: layout})
+						if li == 0 && code == 1 && mi == 0 && c.k%7 == 0 {
+							c.r.Sample(map[string]any{"case": id, "type": d.URL, "canonical": fmt.Sprintf("%x", d.Value), "alternative-encoding": fmt.Sprintf("%x", v.Value)})
+						}
+					}
+				}
+			}
+		}
+	}
+	c.size("err:alternative-encodings", total)
+}
+
 func (c *c18Run) errorSection() {
 	msgs := c18Messages()
 	pool := c18DetailPool()
@@ -367,6 +684,9 @@ func (c *c18Run) errorSection() {
 			c.r.Outcome("err:plain:unknown+message")
 		}
 	}
+
+	// valid but non-canonical encodings of detail values (bytes must be carried verbatim)
+	c.encodingSection()
 
 	for li, list := range lists {
 		for mi, m := range msgs {
@@ -1390,7 +1710,7 @@ func (c *c18Run) unknownCase(id, codecName, what, key string, data []byte, orig 
 func TestVerifC18Internal(t *testing.T) {
 	c := c18NewRun("c18-internal")
 	defer c.r.Write()
-	c.r.Rule = "errors: codes 1..16 x messages {unset, \"\", ascii, each single byte 0..127, 14 multi-byte/%-strings} x all ordered lists of 0..2 (thorough 0..3) details from a pool of 8 (registered types, default and foreign URL prefix, one non-canonical encoding), each checked on 6 conversion paths against the specification it was built from; " +
+	c.r.Rule = "errors: codes 1..16 x messages {unset, \"\", ascii, each single byte 0..127, 14 multi-byte/%-strings} x all ordered lists of 0..2 (thorough 0..3) details from a pool of 8 (registered types, default and foreign URL prefix, one non-canonical encoding), each checked on 6 conversion paths against the specification it was built from; plus every alternative (valid, non-canonical) encoding - records reversed / rotated, unknown field in front / between / behind, non-minimal varints in tags, lengths, values, explicit default value, singular field twice, packed written unpacked - of 13 values of 11 registered types as the only detail, next to a canonical one and twice x 3 codes x 2 messages on the same paths (type URL and BYTES must come back); " +
 		"headers: all lists of ≤2 (thorough ≤3) entries over 7 names (3 case variants of two keys, one more key) x 7 value lists, through AddHeaders/AddTrailers and ConvertToProtoHeader, compared per lower-cased key; " +
 		"codecs: every message descriptor of connectrpc.conformance.v1 x {empty, each field alone with 3 values, each pair of fields, all-fields-set per value index and oneof choice; nesting ≤2; duplicates removed} x {proto, json} x {Marshal, MarshalAppend nil/prefix, MarshalStable} plus 12 top-level and 6 nested unknown-field variants per codec, plus decoding into a destination that is not fresh (pre-populated with every other single-field / all-fields-set instance of the type; one destination for sequences of three different messages; re-used after a rejected unknown-field input), compared after every decode; a case counts as non-trivial when it is a distinct error spec / non-empty header list / distinct message instance"
 	if c.replayID == "" || strings.HasPrefix(c.replayID, "err/") {
